@@ -1,10 +1,10 @@
-(* C17_tree, the finite sweep, part 3: n leaves of equal weight are merged by the two-queue merge
+(* C17_tree, the finite sweep, part 2: n leaves of equal weight are merged by the two-queue merge
    (`amerge`) into a tree of height at most ceil(log2 n), for every n = 2 .. 16383, i.e. for all
-   alphabets whose node indices fit i16.  `amerge` projects to `hmerge` (heights only), which equals
-   the fast `fmerge` whose sweep is computed in Tree_sweep_lo.v / Tree_sweep_hi.v. *)
+   alphabets whose node indices fit i16.  `amerge` projects to `hmerge` (heights only), whose
+   canonical runs are swept in Tree_sweep_core.v. *)
 From Coq Require Import NArith ZArith List Lia Bool Arith.
 From V Require Import lib.Finite model.Huffman proofs.Tree_proofs proofs.Tree_merge_total proofs.Tree_depth_total
-  proofs.Tree_sweep_core proofs.Tree_sweep_lo proofs.Tree_sweep_hi.
+  proofs.Tree_sweep_core.
 Import ListNotations.
 Open Scope N_scope.
 
@@ -36,19 +36,11 @@ Proof.
   cbn [repeat map]. rewrite IH. reflexivity.
 Qed.
 
-Lemma canon_sweep n : 2 <= n -> n <= 16383 -> canon_ok n = true.
-Proof.
-  intros H2 Hmax. destruct (N.le_gt_cases n 11585) as [Hlo|Hhi].
-  - apply (all_between_spec _ _ _ canon_sweep_lo n); lia.
-  - apply (all_between_spec _ _ _ canon_sweep_hi n); lia.
-Qed.
-
 (* (3) n equal weights give a tree of height <= ceil(log2 n), n = 2 .. 16383 *)
 Lemma canon_height n T : 2 <= n -> n <= 16383 ->
   amerge (N.to_nat (n - 1)) (canon_items (N.to_nat n)) [] = Some T -> N.of_nat (theight T) <= N.log2_up n.
 Proof.
-  intros H2 Hmax HT. pose proof (canon_sweep n H2 Hmax) as H.
-  unfold canon_ok in H. rewrite fmerge_spec in H.
-  rewrite <- canon_cA in H. change (qlist ([], [])) with (map hf []) in H.
-  rewrite hmerge_nat, HT in H. apply N.leb_le. exact H.
+  intros H2 Hmax HT. destruct (canon_hmerge n H2 Hmax) as [h [Hh Hle]].
+  rewrite <- canon_cA in Hh. change (@nil hitem) with (map hf []) in Hh.
+  rewrite hmerge_nat, HT in Hh. inversion Hh. subst h. exact Hle.
 Qed.
